@@ -103,37 +103,39 @@ func (w *W) Pick(q, t int) int {
 	return q
 }
 
-// Mine tells whether item i of a shared enumeration belongs to this shard.
-func (w *W) Mine(i int) bool { return i%w.NShards == w.Shard }
-
-// MinePlain / SharePlain split work over the plain shards only (for properties whose -race
-// shards run a different workload).
-func (w *W) MinePlain(i int) bool {
-	if w.NPlain <= 0 {
-		return w.Mine(i)
-	}
-	return i%w.NPlain == w.Shard
+// Mine tells whether item i of a shared enumeration belongs to this shard. Plain shards
+// split the enumeration among themselves, and so do the -race shards (which usually run a
+// different, smaller workload).
+func (w *W) Mine(i int) bool {
+	n, k := w.group()
+	return i%n == k
 }
 
-func (w *W) SharePlain(total int) int {
-	if w.NPlain <= 0 {
-		return w.Share(total)
+// group returns the size of this shard's group (plain or race) and its index in it.
+func (w *W) group() (int, int) {
+	if w.NPlain <= 0 || w.NPlain > w.NShards {
+		return w.NShards, w.Shard
 	}
-	n := total / w.NPlain
-	if w.Shard < total%w.NPlain {
-		n++
+	if w.Shard >= w.NPlain {
+		return w.NShards - w.NPlain, w.Shard - w.NPlain
 	}
-	return n
+	return w.NPlain, w.Shard
 }
 
-// Share splits a total count of random cases over the shards.
+// Share splits a total count of random cases over the shards of this shard's group.
 func (w *W) Share(total int) int {
-	n := total / w.NShards
-	if w.Shard < total%w.NShards {
+	g, k := w.group()
+	n := total / g
+	if k < total%g {
 		n++
 	}
 	return n
 }
+
+// MinePlain / SharePlain are Mine / Share (kept for readability at call sites that mean the
+// plain group).
+func (w *W) MinePlain(i int) bool { return w.Mine(i) }
+func (w *W) SharePlain(t int) int { return w.Share(t) }
 
 // Eval counts executions of the code under observation.
 func (w *W) Eval(n int) { w.res.Evals += int64(n) }
